@@ -13,7 +13,7 @@ git -C /repo worktree add --detach -q "$wt" HEAD || exit 3
 trap 'git -C /repo worktree remove --force "$wt" >/dev/null 2>&1' EXIT
 # demos may hard-code their author's worktree: point them at ours
 rd="$out/$(basename "$demo")"
-sed "s#/tmp/seed/C[0-9][0-9]\\([/'\"]\\)#$wt\\1#g; s#/tmp/seed/C[0-9][0-9]\$#$wt#g" "$demo" > "$rd"
+sed "s#/tmp/seed/[CS][0-9][0-9]\\([/'\"]\\)#$wt\\1#g; s#/tmp/seed/[CS][0-9][0-9]\$#$wt#g" "$demo" > "$rd"
 demo="$rd"
 run_demo() {
   case "$demo" in
